@@ -1,6 +1,5 @@
 // auto-generated: "lalrpop 0.23.1"
-// sha3: 40272f21c86d363081fdbffca7d591752d027e9be6ad59a0e743e8331f6a69d6
-use crate::support::*;
+// sha3: 06b063741d82145186a19636f60683837edd3c096ca04f70c5597c965f09c351
 #[allow(unused_extern_crates)]
 extern crate lalrpop_util as __lalrpop_util;
 #[allow(unused_imports)]
@@ -10,9 +9,8 @@ extern crate alloc;
 
 #[rustfmt::skip]
 #[allow(explicit_outlives_requirements, non_snake_case, non_camel_case_types, unused_mut, unused_variables, unused_imports, unused_parens, clippy::needless_lifetimes, clippy::type_complexity, clippy::needless_return, clippy::too_many_arguments, clippy::match_single_binding, clippy::clone_on_copy, clippy::unit_arg)]
-mod __parse__S {
+mod __parse__O {
 
-    use crate::support::*;
     #[allow(unused_extern_crates)]
     extern crate lalrpop_util as __lalrpop_util;
     #[allow(unused_imports)]
@@ -20,16 +18,16 @@ mod __parse__S {
     #[allow(unused_extern_crates)]
     extern crate alloc;
     use self::__lalrpop_util::lexer::Token;
-    pub struct SParser {
+    pub struct OParser {
         builder: __lalrpop_util::lexer::MatcherBuilder,
         _priv: (),
     }
 
-    impl Default for SParser { fn default() -> Self { Self::new() } }
-    impl SParser {
-        pub fn new() -> SParser {
+    impl Default for OParser { fn default() -> Self { Self::new() } }
+    impl OParser {
+        pub fn new() -> OParser {
             let __builder = super::__intern_token::new_builder();
-            SParser {
+            OParser {
                 builder: __builder,
                 _priv: (),
             }
@@ -41,7 +39,7 @@ mod __parse__S {
         >(
             &self,
             input: &'input str,
-        ) -> Result<Vec<usize>, __lalrpop_util::ParseError<usize, Token<'input>, &'static str>>
+        ) -> Result<((usize, usize), (usize, String, usize)), __lalrpop_util::ParseError<usize, Token<'input>, &'static str>>
         {
             let mut __tokens = self.builder.matcher(input);
             let __lookahead = match __tokens.next() {
@@ -53,7 +51,7 @@ mod __parse__S {
                 (Some(__lookahead), _) => {
                     Err(__lalrpop_util::ParseError::ExtraToken { token: __lookahead })
                 }
-                (None, __Nonterminal::____S((_, __nt, _))) => {
+                (None, __Nonterminal::____O((_, __nt, _))) => {
                     Ok(__nt)
                 }
                 _ => unreachable!(),
@@ -64,20 +62,18 @@ mod __parse__S {
     #[allow(dead_code)]
     enum __Nonterminal<'input>
      {
-        _22c_22_3f((usize, Option<&'input str>, usize)),
+        _22_21_22_3f((usize, Option<&'input str>, usize)),
         _40L((usize, usize, usize)),
-        _40R((usize, usize, usize)),
-        Item((usize, usize, usize)),
-        Item_2a((usize, alloc::vec::Vec<usize>, usize)),
-        Item_2b((usize, alloc::vec::Vec<usize>, usize)),
-        N0((usize, Option<(Option<&'input str>, &'input str, Option<&'input str>)>, usize)),
-        N1((usize, &'input str, usize)),
-        N2((usize, (Option<&'input str>, &'input str, Option<&'input str>), usize)),
-        N3((usize, (Option<&'input str>, &'input str, Option<&'input str>), usize)),
-        N3_3f((usize, Option<(Option<&'input str>, &'input str, Option<&'input str>)>, usize)),
-        N4((usize, Option<&'input str>, usize)),
-        S((usize, Vec<usize>, usize)),
-        ____S((usize, Vec<usize>, usize)),
+        Gap_3c_22_28_22_2c_20_22_29_22_3e((usize, (usize, usize, usize), usize)),
+        Id((usize, String, usize)),
+        O((usize, ((usize, usize), (usize, String, usize)), usize)),
+        Opt_3c_22_21_22_3e((usize, (usize, usize), usize)),
+        P((usize, (usize, usize, usize), usize)),
+        S((usize, Vec<(usize, String, usize)>, usize)),
+        Sp_3cId_3e((usize, (usize, String, usize), usize)),
+        ____O((usize, ((usize, usize), (usize, String, usize)), usize)),
+        ____P((usize, (usize, usize, usize), usize)),
+        ____S((usize, Vec<(usize, String, usize)>, usize)),
     }
 
     fn __state0<
@@ -92,15 +88,15 @@ mod __parse__S {
     {
         let mut __result: (Option<(usize, Token<'input>, usize)>, __Nonterminal<'input>);
         match __lookahead {
-            Some((__loc1, Token(4, __tok0), __loc2)) => {
+            Some((__loc1, Token(1, __tok0), __loc2)) => {
                 let __sym0 = (__loc1, (__tok0), __loc2);
-                __result = __state2(input, __tokens, __sym0, core::marker::PhantomData::<(&())>)?;
+                __result = __state3(input, __tokens, __sym0, core::marker::PhantomData::<(&())>)?;
             }
-            None => {
+            Some((_, Token(0, _), _)) => {
                 let __start: usize = __lookahead.as_ref().map(|o| o.0.clone()).unwrap_or_default();
                 let __end = __start.clone();
-                let __nt = super::__action22::<>(input, &__start, &__end);
-                let __nt = __Nonterminal::S((
+                let __nt = super::__action18::<>(input, &__start, &__end);
+                let __nt = __Nonterminal::Opt_3c_22_21_22_3e((
                     __start,
                     __nt,
                     __end,
@@ -110,7 +106,8 @@ mod __parse__S {
             _ => {
                 #[allow(clippy::needless_raw_string_hashes)]
                 let __expected = alloc::vec![
-                    r###""d""###.to_string(),
+                    r###"r#"[a-z]+"#"###.to_string(),
+                    r###""!""###.to_string(),
                 ];
                 return Err(
                     match __lookahead {
@@ -135,17 +132,11 @@ mod __parse__S {
         loop {
             let (__lookahead, __nt) = __result;
             match __nt {
-                __Nonterminal::Item(__sym0) => {
-                    __result = __state4(input, __tokens, __lookahead, __sym0, core::marker::PhantomData::<(&())>)?;
+                __Nonterminal::O(__sym0) => {
+                    __result = __state2(input, __tokens, __lookahead, __sym0, core::marker::PhantomData::<(&())>)?;
                 }
-                __Nonterminal::Item_2b(__sym0) => {
+                __Nonterminal::Opt_3c_22_21_22_3e(__sym0) => {
                     __result = __state1(input, __tokens, __lookahead, __sym0, core::marker::PhantomData::<(&())>)?;
-                }
-                __Nonterminal::N0(__sym0) => {
-                    __result = __state5(input, __tokens, __lookahead, __sym0, core::marker::PhantomData::<(&())>)?;
-                }
-                __Nonterminal::S(__sym0) => {
-                    __result = __state6(input, __tokens, __lookahead, __sym0, core::marker::PhantomData::<(&())>)?;
                 }
                 _ => {
                     return Ok((__lookahead, __nt));
@@ -161,32 +152,20 @@ mod __parse__S {
         input: &'input str,
         __tokens: &mut __TOKENS,
         __lookahead: Option<(usize, Token<'input>, usize)>,
-        __sym0: (usize, alloc::vec::Vec<usize>, usize),
+        __sym0: (usize, (usize, usize), usize),
         _: core::marker::PhantomData<(&'input ())>,
     ) -> Result<(Option<(usize, Token<'input>, usize)>, __Nonterminal<'input>), __lalrpop_util::ParseError<usize, Token<'input>, &'static str>>
     {
         let mut __result: (Option<(usize, Token<'input>, usize)>, __Nonterminal<'input>);
         match __lookahead {
-            Some((__loc1, Token(4, __tok0), __loc2)) => {
+            Some((__loc1, Token(0, __tok0), __loc2)) => {
                 let __sym1 = (__loc1, (__tok0), __loc2);
-                __result = __state2(input, __tokens, __sym1, core::marker::PhantomData::<(&())>)?;
-            }
-            None => {
-                let __start = __sym0.0.clone();
-                let __end = __sym0.2.clone();
-                let __nt = super::__action23::<>(input, __sym0);
-                let __nt = __Nonterminal::S((
-                    __start,
-                    __nt,
-                    __end,
-                ));
-                __result = (__lookahead, __nt);
-                return Ok(__result);
+                __result = __state6(input, __tokens, __sym1, core::marker::PhantomData::<(&())>)?;
             }
             _ => {
                 #[allow(clippy::needless_raw_string_hashes)]
                 let __expected = alloc::vec![
-                    r###""d""###.to_string(),
+                    r###"r#"[a-z]+"#"###.to_string(),
                 ];
                 return Err(
                     match __lookahead {
@@ -211,12 +190,12 @@ mod __parse__S {
         loop {
             let (__lookahead, __nt) = __result;
             match __nt {
-                __Nonterminal::Item(__sym1) => {
-                    __result = __state7(input, __tokens, __lookahead, __sym0, __sym1, core::marker::PhantomData::<(&())>)?;
-                    return Ok(__result);
+                __Nonterminal::Id(__sym1) => {
+                    __result = __state4(input, __tokens, __lookahead, __sym1, core::marker::PhantomData::<(&())>)?;
                 }
-                __Nonterminal::N0(__sym1) => {
-                    __result = __state5(input, __tokens, __lookahead, __sym1, core::marker::PhantomData::<(&())>)?;
+                __Nonterminal::Sp_3cId_3e(__sym1) => {
+                    __result = __state5(input, __tokens, __lookahead, __sym0, __sym1, core::marker::PhantomData::<(&())>)?;
+                    return Ok(__result);
                 }
                 _ => {
                     return Ok((__lookahead, __nt));
@@ -226,6 +205,56 @@ mod __parse__S {
     }
 
     fn __state2<
+        'input,
+        __TOKENS: Iterator<Item=Result<(usize, Token<'input>, usize),__lalrpop_util::ParseError<usize, Token<'input>, &'static str>>>,
+    >(
+        input: &'input str,
+        __tokens: &mut __TOKENS,
+        __lookahead: Option<(usize, Token<'input>, usize)>,
+        __sym0: (usize, ((usize, usize), (usize, String, usize)), usize),
+        _: core::marker::PhantomData<(&'input ())>,
+    ) -> Result<(Option<(usize, Token<'input>, usize)>, __Nonterminal<'input>), __lalrpop_util::ParseError<usize, Token<'input>, &'static str>>
+    {
+        let mut __result: (Option<(usize, Token<'input>, usize)>, __Nonterminal<'input>);
+        match __lookahead {
+            None => {
+                let __start = __sym0.0.clone();
+                let __end = __sym0.2.clone();
+                let __nt = super::__action2::<>(input, __sym0);
+                let __nt = __Nonterminal::____O((
+                    __start,
+                    __nt,
+                    __end,
+                ));
+                __result = (__lookahead, __nt);
+                return Ok(__result);
+            }
+            _ => {
+                #[allow(clippy::needless_raw_string_hashes)]
+                let __expected = alloc::vec![
+                ];
+                return Err(
+                    match __lookahead {
+                        Some(__token) => {
+                            __lalrpop_util::ParseError::UnrecognizedToken {
+                                token: __token,
+                                expected: __expected,
+                            }
+                        }
+                        None => {
+                            let __location = __sym0.2.clone();
+                            __lalrpop_util::ParseError::UnrecognizedEof {
+                                location: __location,
+                                expected: __expected,
+                            }
+                        }
+                    }
+                )
+            }
+        }
+    }
+
+    fn __state3<
         'input,
         __TOKENS: Iterator<Item=Result<(usize, Token<'input>, usize),__lalrpop_util::ParseError<usize, Token<'input>, &'static str>>>,
     >(
@@ -242,15 +271,11 @@ mod __parse__S {
             None => None,
         };
         match __lookahead {
-            Some((__loc1, Token(3, __tok0), __loc2)) => {
-                let __sym1 = (__loc1, (__tok0), __loc2);
-                __result = __state11(input, __tokens, __sym1, core::marker::PhantomData::<(&())>)?;
-            }
             Some((_, Token(0, _), _)) => {
                 let __start = __sym0.0.clone();
                 let __end = __sym0.2.clone();
-                let __nt = super::__action25::<>(input, __sym0);
-                let __nt = __Nonterminal::N0((
+                let __nt = super::__action17::<>(input, __sym0);
+                let __nt = __Nonterminal::Opt_3c_22_21_22_3e((
                     __start,
                     __nt,
                     __end,
@@ -258,23 +283,10 @@ mod __parse__S {
                 __result = (__lookahead, __nt);
                 return Ok(__result);
             }
-            Some((_, Token(4, _), _)) => {
-                let __start = __lookahead.as_ref().map(|o| o.0.clone()).unwrap_or_else(|| __sym0.2.clone());
-                let __end = __start.clone();
-                let __nt = super::__action19::<>(input, &__start, &__end);
-                let __nt = __Nonterminal::N4((
-                    __start,
-                    __nt,
-                    __end,
-                ));
-                __result = (__lookahead, __nt);
-            }
             _ => {
                 #[allow(clippy::needless_raw_string_hashes)]
                 let __expected = alloc::vec![
-                    r###"",""###.to_string(),
-                    r###""c""###.to_string(),
-                    r###""d""###.to_string(),
+                    r###"r#"[a-z]+"#"###.to_string(),
                 ];
                 return Err(
                     match __lookahead {
@@ -295,95 +307,6 @@ mod __parse__S {
                 )
             }
         }
-        #[allow(clippy::never_loop)]
-        loop {
-            let (__lookahead, __nt) = __result;
-            match __nt {
-                __Nonterminal::N3(__sym1) => {
-                    __result = __state9(input, __tokens, __lookahead, __sym0, __sym1, core::marker::PhantomData::<(&())>)?;
-                    return Ok(__result);
-                }
-                __Nonterminal::N4(__sym1) => {
-                    __result = __state10(input, __tokens, __lookahead, __sym1, core::marker::PhantomData::<(&())>)?;
-                }
-                _ => {
-                    return Ok((__lookahead, __nt));
-                }
-            }
-        }
-    }
-
-    fn __state3<
-        'input,
-        __TOKENS: Iterator<Item=Result<(usize, Token<'input>, usize),__lalrpop_util::ParseError<usize, Token<'input>, &'static str>>>,
-    >(
-        input: &'input str,
-        __tokens: &mut __TOKENS,
-        __sym0: (usize, Option<&'input str>, usize),
-        __sym1: (usize, &'input str, usize),
-        _: core::marker::PhantomData<(&'input ())>,
-    ) -> Result<(Option<(usize, Token<'input>, usize)>, __Nonterminal<'input>), __lalrpop_util::ParseError<usize, Token<'input>, &'static str>>
-    {
-        let mut __result: (Option<(usize, Token<'input>, usize)>, __Nonterminal<'input>);
-        let __lookahead = match __tokens.next() {
-            Some(Ok(v)) => Some(v),
-            Some(Err(e)) => return Err(e),
-            None => None,
-        };
-        match __lookahead {
-            Some((__loc1, Token(3, __tok0), __loc2)) => {
-                let __sym2 = (__loc1, (__tok0), __loc2);
-                __result = __state11(input, __tokens, __sym2, core::marker::PhantomData::<(&())>)?;
-            }
-            Some((_, Token(0, _), _)) => {
-                let __start = __lookahead.as_ref().map(|o| o.0.clone()).unwrap_or_else(|| __sym1.2.clone());
-                let __end = __start.clone();
-                let __nt = super::__action19::<>(input, &__start, &__end);
-                let __nt = __Nonterminal::N4((
-                    __start,
-                    __nt,
-                    __end,
-                ));
-                __result = (__lookahead, __nt);
-            }
-            _ => {
-                #[allow(clippy::needless_raw_string_hashes)]
-                let __expected = alloc::vec![
-                    r###"",""###.to_string(),
-                    r###""c""###.to_string(),
-                ];
-                return Err(
-                    match __lookahead {
-                        Some(__token) => {
-                            __lalrpop_util::ParseError::UnrecognizedToken {
-                                token: __token,
-                                expected: __expected,
-                            }
-                        }
-                        None => {
-                            let __location = __sym1.2.clone();
-                            __lalrpop_util::ParseError::UnrecognizedEof {
-                                location: __location,
-                                expected: __expected,
-                            }
-                        }
-                    }
-                )
-            }
-        }
-        #[allow(clippy::never_loop)]
-        loop {
-            let (__lookahead, __nt) = __result;
-            match __nt {
-                __Nonterminal::N4(__sym2) => {
-                    __result = __state12(input, __tokens, __lookahead, __sym0, __sym1, __sym2, core::marker::PhantomData::<(&())>)?;
-                    return Ok(__result);
-                }
-                _ => {
-                    return Ok((__lookahead, __nt));
-                }
-            }
-        }
     }
 
     fn __state4<
@@ -393,18 +316,17 @@ mod __parse__S {
         input: &'input str,
         __tokens: &mut __TOKENS,
         __lookahead: Option<(usize, Token<'input>, usize)>,
-        __sym0: (usize, usize, usize),
+        __sym0: (usize, String, usize),
         _: core::marker::PhantomData<(&'input ())>,
     ) -> Result<(Option<(usize, Token<'input>, usize)>, __Nonterminal<'input>), __lalrpop_util::ParseError<usize, Token<'input>, &'static str>>
     {
         let mut __result: (Option<(usize, Token<'input>, usize)>, __Nonterminal<'input>);
         match __lookahead {
-            Some((_, Token(4, _), _)) |
             None => {
                 let __start = __sym0.0.clone();
                 let __end = __sym0.2.clone();
-                let __nt = super::__action16::<>(input, __sym0);
-                let __nt = __Nonterminal::Item_2b((
+                let __nt = super::__action19::<>(input, __sym0);
+                let __nt = __Nonterminal::Sp_3cId_3e((
                     __start,
                     __nt,
                     __end,
@@ -415,7 +337,6 @@ mod __parse__S {
             _ => {
                 #[allow(clippy::needless_raw_string_hashes)]
                 let __expected = alloc::vec![
-                    r###""d""###.to_string(),
                 ];
                 return Err(
                     match __lookahead {
@@ -445,21 +366,28 @@ mod __parse__S {
         input: &'input str,
         __tokens: &mut __TOKENS,
         __lookahead: Option<(usize, Token<'input>, usize)>,
-        __sym0: (usize, Option<(Option<&'input str>, &'input str, Option<&'input str>)>, usize),
+        __sym0: (usize, (usize, usize), usize),
+        __sym1: (usize, (usize, String, usize), usize),
         _: core::marker::PhantomData<(&'input ())>,
     ) -> Result<(Option<(usize, Token<'input>, usize)>, __Nonterminal<'input>), __lalrpop_util::ParseError<usize, Token<'input>, &'static str>>
     {
         let mut __result: (Option<(usize, Token<'input>, usize)>, __Nonterminal<'input>);
         match __lookahead {
-            Some((__loc1, Token(0, __tok0), __loc2)) => {
-                let __sym1 = (__loc1, (__tok0), __loc2);
-                __result = __state8(input, __tokens, __sym0, __sym1, core::marker::PhantomData::<(&())>)?;
+            None => {
+                let __start = __sym0.0.clone();
+                let __end = __sym1.2.clone();
+                let __nt = super::__action7::<>(input, __sym0, __sym1);
+                let __nt = __Nonterminal::O((
+                    __start,
+                    __nt,
+                    __end,
+                ));
+                __result = (__lookahead, __nt);
                 return Ok(__result);
             }
             _ => {
                 #[allow(clippy::needless_raw_string_hashes)]
                 let __expected = alloc::vec![
-                    r###"",""###.to_string(),
                 ];
                 return Err(
                     match __lookahead {
@@ -470,7 +398,7 @@ mod __parse__S {
                             }
                         }
                         None => {
-                            let __location = __sym0.2.clone();
+                            let __location = __sym1.2.clone();
                             __lalrpop_util::ParseError::UnrecognizedEof {
                                 location: __location,
                                 expected: __expected,
@@ -488,13 +416,537 @@ mod __parse__S {
     >(
         input: &'input str,
         __tokens: &mut __TOKENS,
+        __sym0: (usize, &'input str, usize),
+        _: core::marker::PhantomData<(&'input ())>,
+    ) -> Result<(Option<(usize, Token<'input>, usize)>, __Nonterminal<'input>), __lalrpop_util::ParseError<usize, Token<'input>, &'static str>>
+    {
+        let mut __result: (Option<(usize, Token<'input>, usize)>, __Nonterminal<'input>);
+        let __lookahead = match __tokens.next() {
+            Some(Ok(v)) => Some(v),
+            Some(Err(e)) => return Err(e),
+            None => None,
+        };
+        match __lookahead {
+            None => {
+                let __start = __sym0.0.clone();
+                let __end = __sym0.2.clone();
+                let __nt = super::__action5::<>(input, __sym0);
+                let __nt = __Nonterminal::Id((
+                    __start,
+                    __nt,
+                    __end,
+                ));
+                __result = (__lookahead, __nt);
+                return Ok(__result);
+            }
+            _ => {
+                #[allow(clippy::needless_raw_string_hashes)]
+                let __expected = alloc::vec![
+                ];
+                return Err(
+                    match __lookahead {
+                        Some(__token) => {
+                            __lalrpop_util::ParseError::UnrecognizedToken {
+                                token: __token,
+                                expected: __expected,
+                            }
+                        }
+                        None => {
+                            let __location = __sym0.2.clone();
+                            __lalrpop_util::ParseError::UnrecognizedEof {
+                                location: __location,
+                                expected: __expected,
+                            }
+                        }
+                    }
+                )
+            }
+        }
+    }
+}
+#[allow(unused_imports)]
+pub use self::__parse__O::OParser;
+
+#[rustfmt::skip]
+#[allow(explicit_outlives_requirements, non_snake_case, non_camel_case_types, unused_mut, unused_variables, unused_imports, unused_parens, clippy::needless_lifetimes, clippy::type_complexity, clippy::needless_return, clippy::too_many_arguments, clippy::match_single_binding, clippy::clone_on_copy, clippy::unit_arg)]
+mod __parse__P {
+
+    #[allow(unused_extern_crates)]
+    extern crate lalrpop_util as __lalrpop_util;
+    #[allow(unused_imports)]
+    use self::__lalrpop_util::state_machine as __state_machine;
+    #[allow(unused_extern_crates)]
+    extern crate alloc;
+    use self::__lalrpop_util::lexer::Token;
+    pub struct PParser {
+        builder: __lalrpop_util::lexer::MatcherBuilder,
+        _priv: (),
+    }
+
+    impl Default for PParser { fn default() -> Self { Self::new() } }
+    impl PParser {
+        pub fn new() -> PParser {
+            let __builder = super::__intern_token::new_builder();
+            PParser {
+                builder: __builder,
+                _priv: (),
+            }
+        }
+
+        #[allow(dead_code)]
+        pub fn parse<
+            'input,
+        >(
+            &self,
+            input: &'input str,
+        ) -> Result<(usize, usize, usize), __lalrpop_util::ParseError<usize, Token<'input>, &'static str>>
+        {
+            let mut __tokens = self.builder.matcher(input);
+            let __lookahead = match __tokens.next() {
+                Some(Ok(v)) => Some(v),
+                Some(Err(e)) => return Err(e),
+                None => None,
+            };
+            match __state0(input, &mut __tokens, __lookahead, core::marker::PhantomData::<(&())>)? {
+                (Some(__lookahead), _) => {
+                    Err(__lalrpop_util::ParseError::ExtraToken { token: __lookahead })
+                }
+                (None, __Nonterminal::____P((_, __nt, _))) => {
+                    Ok(__nt)
+                }
+                _ => unreachable!(),
+            }
+        }
+    }
+
+    #[allow(dead_code)]
+    enum __Nonterminal<'input>
+     {
+        _22_21_22_3f((usize, Option<&'input str>, usize)),
+        _40L((usize, usize, usize)),
+        Gap_3c_22_28_22_2c_20_22_29_22_3e((usize, (usize, usize, usize), usize)),
+        Id((usize, String, usize)),
+        O((usize, ((usize, usize), (usize, String, usize)), usize)),
+        Opt_3c_22_21_22_3e((usize, (usize, usize), usize)),
+        P((usize, (usize, usize, usize), usize)),
+        S((usize, Vec<(usize, String, usize)>, usize)),
+        Sp_3cId_3e((usize, (usize, String, usize), usize)),
+        ____O((usize, ((usize, usize), (usize, String, usize)), usize)),
+        ____P((usize, (usize, usize, usize), usize)),
+        ____S((usize, Vec<(usize, String, usize)>, usize)),
+    }
+
+    fn __state0<
+        'input,
+        __TOKENS: Iterator<Item=Result<(usize, Token<'input>, usize),__lalrpop_util::ParseError<usize, Token<'input>, &'static str>>>,
+    >(
+        input: &'input str,
+        __tokens: &mut __TOKENS,
         __lookahead: Option<(usize, Token<'input>, usize)>,
-        __sym0: (usize, Vec<usize>, usize),
         _: core::marker::PhantomData<(&'input ())>,
     ) -> Result<(Option<(usize, Token<'input>, usize)>, __Nonterminal<'input>), __lalrpop_util::ParseError<usize, Token<'input>, &'static str>>
     {
         let mut __result: (Option<(usize, Token<'input>, usize)>, __Nonterminal<'input>);
         match __lookahead {
+            Some((__loc1, Token(2, __tok0), __loc2)) => {
+                let __sym0 = (__loc1, (__tok0), __loc2);
+                __result = __state3(input, __tokens, __sym0, core::marker::PhantomData::<(&())>)?;
+            }
+            _ => {
+                #[allow(clippy::needless_raw_string_hashes)]
+                let __expected = alloc::vec![
+                    r###""(""###.to_string(),
+                ];
+                return Err(
+                    match __lookahead {
+                        Some(__token) => {
+                            __lalrpop_util::ParseError::UnrecognizedToken {
+                                token: __token,
+                                expected: __expected,
+                            }
+                        }
+                        None => {
+                            let __location = Default::default();
+                            __lalrpop_util::ParseError::UnrecognizedEof {
+                                location: __location,
+                                expected: __expected,
+                            }
+                        }
+                    }
+                )
+            }
+        }
+        #[allow(clippy::never_loop)]
+        loop {
+            let (__lookahead, __nt) = __result;
+            match __nt {
+                __Nonterminal::Gap_3c_22_28_22_2c_20_22_29_22_3e(__sym0) => {
+                    __result = __state1(input, __tokens, __lookahead, __sym0, core::marker::PhantomData::<(&())>)?;
+                }
+                __Nonterminal::P(__sym0) => {
+                    __result = __state2(input, __tokens, __lookahead, __sym0, core::marker::PhantomData::<(&())>)?;
+                }
+                _ => {
+                    return Ok((__lookahead, __nt));
+                }
+            }
+        }
+    }
+
+    fn __state1<
+        'input,
+        __TOKENS: Iterator<Item=Result<(usize, Token<'input>, usize),__lalrpop_util::ParseError<usize, Token<'input>, &'static str>>>,
+    >(
+        input: &'input str,
+        __tokens: &mut __TOKENS,
+        __lookahead: Option<(usize, Token<'input>, usize)>,
+        __sym0: (usize, (usize, usize, usize), usize),
+        _: core::marker::PhantomData<(&'input ())>,
+    ) -> Result<(Option<(usize, Token<'input>, usize)>, __Nonterminal<'input>), __lalrpop_util::ParseError<usize, Token<'input>, &'static str>>
+    {
+        let mut __result: (Option<(usize, Token<'input>, usize)>, __Nonterminal<'input>);
+        match __lookahead {
+            None => {
+                let __start = __sym0.0.clone();
+                let __end = __sym0.2.clone();
+                let __nt = super::__action6::<>(input, __sym0);
+                let __nt = __Nonterminal::P((
+                    __start,
+                    __nt,
+                    __end,
+                ));
+                __result = (__lookahead, __nt);
+                return Ok(__result);
+            }
+            _ => {
+                #[allow(clippy::needless_raw_string_hashes)]
+                let __expected = alloc::vec![
+                ];
+                return Err(
+                    match __lookahead {
+                        Some(__token) => {
+                            __lalrpop_util::ParseError::UnrecognizedToken {
+                                token: __token,
+                                expected: __expected,
+                            }
+                        }
+                        None => {
+                            let __location = __sym0.2.clone();
+                            __lalrpop_util::ParseError::UnrecognizedEof {
+                                location: __location,
+                                expected: __expected,
+                            }
+                        }
+                    }
+                )
+            }
+        }
+    }
+
+    fn __state2<
+        'input,
+        __TOKENS: Iterator<Item=Result<(usize, Token<'input>, usize),__lalrpop_util::ParseError<usize, Token<'input>, &'static str>>>,
+    >(
+        input: &'input str,
+        __tokens: &mut __TOKENS,
+        __lookahead: Option<(usize, Token<'input>, usize)>,
+        __sym0: (usize, (usize, usize, usize), usize),
+        _: core::marker::PhantomData<(&'input ())>,
+    ) -> Result<(Option<(usize, Token<'input>, usize)>, __Nonterminal<'input>), __lalrpop_util::ParseError<usize, Token<'input>, &'static str>>
+    {
+        let mut __result: (Option<(usize, Token<'input>, usize)>, __Nonterminal<'input>);
+        match __lookahead {
+            None => {
+                let __start = __sym0.0.clone();
+                let __end = __sym0.2.clone();
+                let __nt = super::__action1::<>(input, __sym0);
+                let __nt = __Nonterminal::____P((
+                    __start,
+                    __nt,
+                    __end,
+                ));
+                __result = (__lookahead, __nt);
+                return Ok(__result);
+            }
+            _ => {
+                #[allow(clippy::needless_raw_string_hashes)]
+                let __expected = alloc::vec![
+                ];
+                return Err(
+                    match __lookahead {
+                        Some(__token) => {
+                            __lalrpop_util::ParseError::UnrecognizedToken {
+                                token: __token,
+                                expected: __expected,
+                            }
+                        }
+                        None => {
+                            let __location = __sym0.2.clone();
+                            __lalrpop_util::ParseError::UnrecognizedEof {
+                                location: __location,
+                                expected: __expected,
+                            }
+                        }
+                    }
+                )
+            }
+        }
+    }
+
+    fn __state3<
+        'input,
+        __TOKENS: Iterator<Item=Result<(usize, Token<'input>, usize),__lalrpop_util::ParseError<usize, Token<'input>, &'static str>>>,
+    >(
+        input: &'input str,
+        __tokens: &mut __TOKENS,
+        __sym0: (usize, &'input str, usize),
+        _: core::marker::PhantomData<(&'input ())>,
+    ) -> Result<(Option<(usize, Token<'input>, usize)>, __Nonterminal<'input>), __lalrpop_util::ParseError<usize, Token<'input>, &'static str>>
+    {
+        let mut __result: (Option<(usize, Token<'input>, usize)>, __Nonterminal<'input>);
+        let __lookahead = match __tokens.next() {
+            Some(Ok(v)) => Some(v),
+            Some(Err(e)) => return Err(e),
+            None => None,
+        };
+        match __lookahead {
+            Some((__loc1, Token(3, __tok0), __loc2)) => {
+                let __sym1 = (__loc1, (__tok0), __loc2);
+                __result = __state4(input, __tokens, __sym0, __sym1, core::marker::PhantomData::<(&())>)?;
+                return Ok(__result);
+            }
+            _ => {
+                #[allow(clippy::needless_raw_string_hashes)]
+                let __expected = alloc::vec![
+                    r###"")""###.to_string(),
+                ];
+                return Err(
+                    match __lookahead {
+                        Some(__token) => {
+                            __lalrpop_util::ParseError::UnrecognizedToken {
+                                token: __token,
+                                expected: __expected,
+                            }
+                        }
+                        None => {
+                            let __location = __sym0.2.clone();
+                            __lalrpop_util::ParseError::UnrecognizedEof {
+                                location: __location,
+                                expected: __expected,
+                            }
+                        }
+                    }
+                )
+            }
+        }
+    }
+
+    fn __state4<
+        'input,
+        __TOKENS: Iterator<Item=Result<(usize, Token<'input>, usize),__lalrpop_util::ParseError<usize, Token<'input>, &'static str>>>,
+    >(
+        input: &'input str,
+        __tokens: &mut __TOKENS,
+        __sym0: (usize, &'input str, usize),
+        __sym1: (usize, &'input str, usize),
+        _: core::marker::PhantomData<(&'input ())>,
+    ) -> Result<(Option<(usize, Token<'input>, usize)>, __Nonterminal<'input>), __lalrpop_util::ParseError<usize, Token<'input>, &'static str>>
+    {
+        let mut __result: (Option<(usize, Token<'input>, usize)>, __Nonterminal<'input>);
+        let __lookahead = match __tokens.next() {
+            Some(Ok(v)) => Some(v),
+            Some(Err(e)) => return Err(e),
+            None => None,
+        };
+        match __lookahead {
+            None => {
+                let __start = __sym0.0.clone();
+                let __end = __sym1.2.clone();
+                let __nt = super::__action16::<>(input, __sym0, __sym1);
+                let __nt = __Nonterminal::Gap_3c_22_28_22_2c_20_22_29_22_3e((
+                    __start,
+                    __nt,
+                    __end,
+                ));
+                __result = (__lookahead, __nt);
+                return Ok(__result);
+            }
+            _ => {
+                #[allow(clippy::needless_raw_string_hashes)]
+                let __expected = alloc::vec![
+                ];
+                return Err(
+                    match __lookahead {
+                        Some(__token) => {
+                            __lalrpop_util::ParseError::UnrecognizedToken {
+                                token: __token,
+                                expected: __expected,
+                            }
+                        }
+                        None => {
+                            let __location = __sym1.2.clone();
+                            __lalrpop_util::ParseError::UnrecognizedEof {
+                                location: __location,
+                                expected: __expected,
+                            }
+                        }
+                    }
+                )
+            }
+        }
+    }
+}
+#[allow(unused_imports)]
+pub use self::__parse__P::PParser;
+
+#[rustfmt::skip]
+#[allow(explicit_outlives_requirements, non_snake_case, non_camel_case_types, unused_mut, unused_variables, unused_imports, unused_parens, clippy::needless_lifetimes, clippy::type_complexity, clippy::needless_return, clippy::too_many_arguments, clippy::match_single_binding, clippy::clone_on_copy, clippy::unit_arg)]
+mod __parse__S {
+
+    #[allow(unused_extern_crates)]
+    extern crate lalrpop_util as __lalrpop_util;
+    #[allow(unused_imports)]
+    use self::__lalrpop_util::state_machine as __state_machine;
+    #[allow(unused_extern_crates)]
+    extern crate alloc;
+    use self::__lalrpop_util::lexer::Token;
+    pub struct SParser {
+        builder: __lalrpop_util::lexer::MatcherBuilder,
+        _priv: (),
+    }
+
+    impl Default for SParser { fn default() -> Self { Self::new() } }
+    impl SParser {
+        pub fn new() -> SParser {
+            let __builder = super::__intern_token::new_builder();
+            SParser {
+                builder: __builder,
+                _priv: (),
+            }
+        }
+
+        #[allow(dead_code)]
+        pub fn parse<
+            'input,
+        >(
+            &self,
+            input: &'input str,
+        ) -> Result<Vec<(usize, String, usize)>, __lalrpop_util::ParseError<usize, Token<'input>, &'static str>>
+        {
+            let mut __tokens = self.builder.matcher(input);
+            let __lookahead = match __tokens.next() {
+                Some(Ok(v)) => Some(v),
+                Some(Err(e)) => return Err(e),
+                None => None,
+            };
+            match __state0(input, &mut __tokens, __lookahead, core::marker::PhantomData::<(&())>)? {
+                (Some(__lookahead), _) => {
+                    Err(__lalrpop_util::ParseError::ExtraToken { token: __lookahead })
+                }
+                (None, __Nonterminal::____S((_, __nt, _))) => {
+                    Ok(__nt)
+                }
+                _ => unreachable!(),
+            }
+        }
+    }
+
+    #[allow(dead_code)]
+    enum __Nonterminal<'input>
+     {
+        _22_21_22_3f((usize, Option<&'input str>, usize)),
+        _40L((usize, usize, usize)),
+        Gap_3c_22_28_22_2c_20_22_29_22_3e((usize, (usize, usize, usize), usize)),
+        Id((usize, String, usize)),
+        O((usize, ((usize, usize), (usize, String, usize)), usize)),
+        Opt_3c_22_21_22_3e((usize, (usize, usize), usize)),
+        P((usize, (usize, usize, usize), usize)),
+        S((usize, Vec<(usize, String, usize)>, usize)),
+        Sp_3cId_3e((usize, (usize, String, usize), usize)),
+        ____O((usize, ((usize, usize), (usize, String, usize)), usize)),
+        ____P((usize, (usize, usize, usize), usize)),
+        ____S((usize, Vec<(usize, String, usize)>, usize)),
+    }
+
+    fn __state0<
+        'input,
+        __TOKENS: Iterator<Item=Result<(usize, Token<'input>, usize),__lalrpop_util::ParseError<usize, Token<'input>, &'static str>>>,
+    >(
+        input: &'input str,
+        __tokens: &mut __TOKENS,
+        __lookahead: Option<(usize, Token<'input>, usize)>,
+        _: core::marker::PhantomData<(&'input ())>,
+    ) -> Result<(Option<(usize, Token<'input>, usize)>, __Nonterminal<'input>), __lalrpop_util::ParseError<usize, Token<'input>, &'static str>>
+    {
+        let mut __result: (Option<(usize, Token<'input>, usize)>, __Nonterminal<'input>);
+        match __lookahead {
+            Some((_, Token(0, _), _)) |
+            None => {
+                let __start: usize = __lookahead.as_ref().map(|o| o.0.clone()).unwrap_or_default();
+                let __end = __start.clone();
+                let __nt = super::__action4::<>(input, &__start, &__end);
+                let __nt = __Nonterminal::S((
+                    __start,
+                    __nt,
+                    __end,
+                ));
+                __result = (__lookahead, __nt);
+            }
+            _ => {
+                #[allow(clippy::needless_raw_string_hashes)]
+                let __expected = alloc::vec![
+                    r###"r#"[a-z]+"#"###.to_string(),
+                ];
+                return Err(
+                    match __lookahead {
+                        Some(__token) => {
+                            __lalrpop_util::ParseError::UnrecognizedToken {
+                                token: __token,
+                                expected: __expected,
+                            }
+                        }
+                        None => {
+                            let __location = Default::default();
+                            __lalrpop_util::ParseError::UnrecognizedEof {
+                                location: __location,
+                                expected: __expected,
+                            }
+                        }
+                    }
+                )
+            }
+        }
+        #[allow(clippy::never_loop)]
+        loop {
+            let (__lookahead, __nt) = __result;
+            match __nt {
+                __Nonterminal::S(__sym0) => {
+                    __result = __state1(input, __tokens, __lookahead, __sym0, core::marker::PhantomData::<(&())>)?;
+                }
+                _ => {
+                    return Ok((__lookahead, __nt));
+                }
+            }
+        }
+    }
+
+    fn __state1<
+        'input,
+        __TOKENS: Iterator<Item=Result<(usize, Token<'input>, usize),__lalrpop_util::ParseError<usize, Token<'input>, &'static str>>>,
+    >(
+        input: &'input str,
+        __tokens: &mut __TOKENS,
+        __lookahead: Option<(usize, Token<'input>, usize)>,
+        __sym0: (usize, Vec<(usize, String, usize)>, usize),
+        _: core::marker::PhantomData<(&'input ())>,
+    ) -> Result<(Option<(usize, Token<'input>, usize)>, __Nonterminal<'input>), __lalrpop_util::ParseError<usize, Token<'input>, &'static str>>
+    {
+        let mut __result: (Option<(usize, Token<'input>, usize)>, __Nonterminal<'input>);
+        match __lookahead {
+            Some((__loc1, Token(0, __tok0), __loc2)) => {
+                let __sym1 = (__loc1, (__tok0), __loc2);
+                __result = __state4(input, __tokens, __sym1, core::marker::PhantomData::<(&())>)?;
+            }
             None => {
                 let __start = __sym0.0.clone();
                 let __end = __sym0.2.clone();
@@ -510,6 +962,75 @@ mod __parse__S {
             _ => {
                 #[allow(clippy::needless_raw_string_hashes)]
                 let __expected = alloc::vec![
+                    r###"r#"[a-z]+"#"###.to_string(),
+                ];
+                return Err(
+                    match __lookahead {
+                        Some(__token) => {
+                            __lalrpop_util::ParseError::UnrecognizedToken {
+                                token: __token,
+                                expected: __expected,
+                            }
+                        }
+                        None => {
+                            let __location = __sym0.2.clone();
+                            __lalrpop_util::ParseError::UnrecognizedEof {
+                                location: __location,
+                                expected: __expected,
+                            }
+                        }
+                    }
+                )
+            }
+        }
+        #[allow(clippy::never_loop)]
+        loop {
+            let (__lookahead, __nt) = __result;
+            match __nt {
+                __Nonterminal::Id(__sym1) => {
+                    __result = __state2(input, __tokens, __lookahead, __sym1, core::marker::PhantomData::<(&())>)?;
+                }
+                __Nonterminal::Sp_3cId_3e(__sym1) => {
+                    __result = __state3(input, __tokens, __lookahead, __sym0, __sym1, core::marker::PhantomData::<(&())>)?;
+                    return Ok(__result);
+                }
+                _ => {
+                    return Ok((__lookahead, __nt));
+                }
+            }
+        }
+    }
+
+    fn __state2<
+        'input,
+        __TOKENS: Iterator<Item=Result<(usize, Token<'input>, usize),__lalrpop_util::ParseError<usize, Token<'input>, &'static str>>>,
+    >(
+        input: &'input str,
+        __tokens: &mut __TOKENS,
+        __lookahead: Option<(usize, Token<'input>, usize)>,
+        __sym0: (usize, String, usize),
+        _: core::marker::PhantomData<(&'input ())>,
+    ) -> Result<(Option<(usize, Token<'input>, usize)>, __Nonterminal<'input>), __lalrpop_util::ParseError<usize, Token<'input>, &'static str>>
+    {
+        let mut __result: (Option<(usize, Token<'input>, usize)>, __Nonterminal<'input>);
+        match __lookahead {
+            Some((_, Token(0, _), _)) |
+            None => {
+                let __start = __sym0.0.clone();
+                let __end = __sym0.2.clone();
+                let __nt = super::__action19::<>(input, __sym0);
+                let __nt = __Nonterminal::Sp_3cId_3e((
+                    __start,
+                    __nt,
+                    __end,
+                ));
+                __result = (__lookahead, __nt);
+                return Ok(__result);
+            }
+            _ => {
+                #[allow(clippy::needless_raw_string_hashes)]
+                let __expected = alloc::vec![
+                    r###"r#"[a-z]+"#"###.to_string(),
                 ];
                 return Err(
                     match __lookahead {
@@ -532,26 +1053,26 @@ mod __parse__S {
         }
     }
 
-    fn __state7<
+    fn __state3<
         'input,
         __TOKENS: Iterator<Item=Result<(usize, Token<'input>, usize),__lalrpop_util::ParseError<usize, Token<'input>, &'static str>>>,
     >(
         input: &'input str,
         __tokens: &mut __TOKENS,
         __lookahead: Option<(usize, Token<'input>, usize)>,
-        __sym0: (usize, alloc::vec::Vec<usize>, usize),
-        __sym1: (usize, usize, usize),
+        __sym0: (usize, Vec<(usize, String, usize)>, usize),
+        __sym1: (usize, (usize, String, usize), usize),
         _: core::marker::PhantomData<(&'input ())>,
     ) -> Result<(Option<(usize, Token<'input>, usize)>, __Nonterminal<'input>), __lalrpop_util::ParseError<usize, Token<'input>, &'static str>>
     {
         let mut __result: (Option<(usize, Token<'input>, usize)>, __Nonterminal<'input>);
         match __lookahead {
-            Some((_, Token(4, _), _)) |
+            Some((_, Token(0, _), _)) |
             None => {
                 let __start = __sym0.0.clone();
                 let __end = __sym1.2.clone();
-                let __nt = super::__action17::<>(input, __sym0, __sym1);
-                let __nt = __Nonterminal::Item_2b((
+                let __nt = super::__action3::<>(input, __sym0, __sym1);
+                let __nt = __Nonterminal::S((
                     __start,
                     __nt,
                     __end,
@@ -562,7 +1083,7 @@ mod __parse__S {
             _ => {
                 #[allow(clippy::needless_raw_string_hashes)]
                 let __expected = alloc::vec![
-                    r###""d""###.to_string(),
+                    r###"r#"[a-z]+"#"###.to_string(),
                 ];
                 return Err(
                     match __lookahead {
@@ -585,160 +1106,7 @@ mod __parse__S {
         }
     }
 
-    fn __state8<
-        'input,
-        __TOKENS: Iterator<Item=Result<(usize, Token<'input>, usize),__lalrpop_util::ParseError<usize, Token<'input>, &'static str>>>,
-    >(
-        input: &'input str,
-        __tokens: &mut __TOKENS,
-        __sym0: (usize, Option<(Option<&'input str>, &'input str, Option<&'input str>)>, usize),
-        __sym1: (usize, &'input str, usize),
-        _: core::marker::PhantomData<(&'input ())>,
-    ) -> Result<(Option<(usize, Token<'input>, usize)>, __Nonterminal<'input>), __lalrpop_util::ParseError<usize, Token<'input>, &'static str>>
-    {
-        let mut __result: (Option<(usize, Token<'input>, usize)>, __Nonterminal<'input>);
-        let __lookahead = match __tokens.next() {
-            Some(Ok(v)) => Some(v),
-            Some(Err(e)) => return Err(e),
-            None => None,
-        };
-        match __lookahead {
-            Some((_, Token(4, _), _)) |
-            None => {
-                let __start = __sym0.0.clone();
-                let __end = __sym1.2.clone();
-                let __nt = super::__action2::<>(input, __sym0, __sym1);
-                let __nt = __Nonterminal::Item((
-                    __start,
-                    __nt,
-                    __end,
-                ));
-                __result = (__lookahead, __nt);
-                return Ok(__result);
-            }
-            _ => {
-                #[allow(clippy::needless_raw_string_hashes)]
-                let __expected = alloc::vec![
-                    r###""d""###.to_string(),
-                ];
-                return Err(
-                    match __lookahead {
-                        Some(__token) => {
-                            __lalrpop_util::ParseError::UnrecognizedToken {
-                                token: __token,
-                                expected: __expected,
-                            }
-                        }
-                        None => {
-                            let __location = __sym1.2.clone();
-                            __lalrpop_util::ParseError::UnrecognizedEof {
-                                location: __location,
-                                expected: __expected,
-                            }
-                        }
-                    }
-                )
-            }
-        }
-    }
-
-    fn __state9<
-        'input,
-        __TOKENS: Iterator<Item=Result<(usize, Token<'input>, usize),__lalrpop_util::ParseError<usize, Token<'input>, &'static str>>>,
-    >(
-        input: &'input str,
-        __tokens: &mut __TOKENS,
-        __lookahead: Option<(usize, Token<'input>, usize)>,
-        __sym0: (usize, &'input str, usize),
-        __sym1: (usize, (Option<&'input str>, &'input str, Option<&'input str>), usize),
-        _: core::marker::PhantomData<(&'input ())>,
-    ) -> Result<(Option<(usize, Token<'input>, usize)>, __Nonterminal<'input>), __lalrpop_util::ParseError<usize, Token<'input>, &'static str>>
-    {
-        let mut __result: (Option<(usize, Token<'input>, usize)>, __Nonterminal<'input>);
-        match __lookahead {
-            Some((_, Token(0, _), _)) => {
-                let __start = __sym0.0.clone();
-                let __end = __sym1.2.clone();
-                let __nt = super::__action24::<>(input, __sym0, __sym1);
-                let __nt = __Nonterminal::N0((
-                    __start,
-                    __nt,
-                    __end,
-                ));
-                __result = (__lookahead, __nt);
-                return Ok(__result);
-            }
-            _ => {
-                #[allow(clippy::needless_raw_string_hashes)]
-                let __expected = alloc::vec![
-                    r###"",""###.to_string(),
-                ];
-                return Err(
-                    match __lookahead {
-                        Some(__token) => {
-                            __lalrpop_util::ParseError::UnrecognizedToken {
-                                token: __token,
-                                expected: __expected,
-                            }
-                        }
-                        None => {
-                            let __location = __sym1.2.clone();
-                            __lalrpop_util::ParseError::UnrecognizedEof {
-                                location: __location,
-                                expected: __expected,
-                            }
-                        }
-                    }
-                )
-            }
-        }
-    }
-
-    fn __state10<
-        'input,
-        __TOKENS: Iterator<Item=Result<(usize, Token<'input>, usize),__lalrpop_util::ParseError<usize, Token<'input>, &'static str>>>,
-    >(
-        input: &'input str,
-        __tokens: &mut __TOKENS,
-        __lookahead: Option<(usize, Token<'input>, usize)>,
-        __sym0: (usize, Option<&'input str>, usize),
-        _: core::marker::PhantomData<(&'input ())>,
-    ) -> Result<(Option<(usize, Token<'input>, usize)>, __Nonterminal<'input>), __lalrpop_util::ParseError<usize, Token<'input>, &'static str>>
-    {
-        let mut __result: (Option<(usize, Token<'input>, usize)>, __Nonterminal<'input>);
-        match __lookahead {
-            Some((__loc1, Token(4, __tok0), __loc2)) => {
-                let __sym1 = (__loc1, (__tok0), __loc2);
-                __result = __state3(input, __tokens, __sym0, __sym1, core::marker::PhantomData::<(&())>)?;
-                return Ok(__result);
-            }
-            _ => {
-                #[allow(clippy::needless_raw_string_hashes)]
-                let __expected = alloc::vec![
-                    r###""d""###.to_string(),
-                ];
-                return Err(
-                    match __lookahead {
-                        Some(__token) => {
-                            __lalrpop_util::ParseError::UnrecognizedToken {
-                                token: __token,
-                                expected: __expected,
-                            }
-                        }
-                        None => {
-                            let __location = __sym0.2.clone();
-                            __lalrpop_util::ParseError::UnrecognizedEof {
-                                location: __location,
-                                expected: __expected,
-                            }
-                        }
-                    }
-                )
-            }
-        }
-    }
-
-    fn __state11<
+    fn __state4<
         'input,
         __TOKENS: Iterator<Item=Result<(usize, Token<'input>, usize),__lalrpop_util::ParseError<usize, Token<'input>, &'static str>>>,
     >(
@@ -756,11 +1124,11 @@ mod __parse__S {
         };
         match __lookahead {
             Some((_, Token(0, _), _)) |
-            Some((_, Token(4, _), _)) => {
+            None => {
                 let __start = __sym0.0.clone();
                 let __end = __sym0.2.clone();
-                let __nt = super::__action18::<>(input, __sym0);
-                let __nt = __Nonterminal::N4((
+                let __nt = super::__action5::<>(input, __sym0);
+                let __nt = __Nonterminal::Id((
                     __start,
                     __nt,
                     __end,
@@ -771,8 +1139,7 @@ mod __parse__S {
             _ => {
                 #[allow(clippy::needless_raw_string_hashes)]
                 let __expected = alloc::vec![
-                    r###"",""###.to_string(),
-                    r###""d""###.to_string(),
+                    r###"r#"[a-z]+"#"###.to_string(),
                 ];
                 return Err(
                     match __lookahead {
@@ -794,66 +1161,12 @@ mod __parse__S {
             }
         }
     }
-
-    fn __state12<
-        'input,
-        __TOKENS: Iterator<Item=Result<(usize, Token<'input>, usize),__lalrpop_util::ParseError<usize, Token<'input>, &'static str>>>,
-    >(
-        input: &'input str,
-        __tokens: &mut __TOKENS,
-        __lookahead: Option<(usize, Token<'input>, usize)>,
-        __sym0: (usize, Option<&'input str>, usize),
-        __sym1: (usize, &'input str, usize),
-        __sym2: (usize, Option<&'input str>, usize),
-        _: core::marker::PhantomData<(&'input ())>,
-    ) -> Result<(Option<(usize, Token<'input>, usize)>, __Nonterminal<'input>), __lalrpop_util::ParseError<usize, Token<'input>, &'static str>>
-    {
-        let mut __result: (Option<(usize, Token<'input>, usize)>, __Nonterminal<'input>);
-        match __lookahead {
-            Some((_, Token(0, _), _)) => {
-                let __start = __sym0.0.clone();
-                let __end = __sym2.2.clone();
-                let __nt = super::__action6::<>(input, __sym0, __sym1, __sym2);
-                let __nt = __Nonterminal::N3((
-                    __start,
-                    __nt,
-                    __end,
-                ));
-                __result = (__lookahead, __nt);
-                return Ok(__result);
-            }
-            _ => {
-                #[allow(clippy::needless_raw_string_hashes)]
-                let __expected = alloc::vec![
-                    r###"",""###.to_string(),
-                ];
-                return Err(
-                    match __lookahead {
-                        Some(__token) => {
-                            __lalrpop_util::ParseError::UnrecognizedToken {
-                                token: __token,
-                                expected: __expected,
-                            }
-                        }
-                        None => {
-                            let __location = __sym2.2.clone();
-                            __lalrpop_util::ParseError::UnrecognizedEof {
-                                location: __location,
-                                expected: __expected,
-                            }
-                        }
-                    }
-                )
-            }
-        }
-    }
 }
 #[allow(unused_imports)]
 pub use self::__parse__S::SParser;
 #[rustfmt::skip]
 mod __intern_token {
     #![allow(unused_imports)]
-    use crate::support::*;
     #[allow(unused_extern_crates)]
     extern crate lalrpop_util as __lalrpop_util;
     #[allow(unused_imports)]
@@ -862,11 +1175,10 @@ mod __intern_token {
     extern crate alloc;
     pub fn new_builder() -> __lalrpop_util::lexer::MatcherBuilder {
         let __strs: &[(&str, bool)] = &[
-            (",", false),
-            ("a", false),
-            ("b", false),
-            ("c", false),
-            ("d", false),
+            ("[a-z]+", false),
+            ("!", false),
+            ("\\(", false),
+            ("\\)", false),
             (r"\s+", true),
         ];
         __lalrpop_util::lexer::MatcherBuilder::new(__strs.iter().copied()).unwrap()
@@ -880,8 +1192,8 @@ fn __action0<
     'input,
 >(
     input: &'input str,
-    (_, __0, _): (usize, Vec<usize>, usize),
-) -> Vec<usize>
+    (_, __0, _): (usize, Vec<(usize, String, usize)>, usize),
+) -> Vec<(usize, String, usize)>
 {
     __0
 }
@@ -892,12 +1204,10 @@ fn __action1<
     'input,
 >(
     input: &'input str,
-    (_, l, _): (usize, usize, usize),
-    (_, xs, _): (usize, alloc::vec::Vec<usize>, usize),
-    (_, r, _): (usize, usize, usize),
-) -> Vec<usize>
+    (_, __0, _): (usize, (usize, usize, usize), usize),
+) -> (usize, usize, usize)
 {
-    { let _ = (&l, &r); xs }
+    __0
 }
 
 #[allow(unused_variables)]
@@ -906,11 +1216,10 @@ fn __action2<
     'input,
 >(
     input: &'input str,
-    (_, x, _): (usize, Option<(Option<&'input str>, &'input str, Option<&'input str>)>, usize),
-    (_, _, _): (usize, &'input str, usize),
-) -> usize
+    (_, __0, _): (usize, ((usize, usize), (usize, String, usize)), usize),
+) -> ((usize, usize), (usize, String, usize))
 {
-    sz(&x)
+    __0
 }
 
 #[allow(unused_variables)]
@@ -919,11 +1228,11 @@ fn __action3<
     'input,
 >(
     input: &'input str,
-    (_, _, _): (usize, &'input str, usize),
-    (_, __0, _): (usize, Option<(Option<&'input str>, &'input str, Option<&'input str>)>, usize),
-) -> Option<(Option<&'input str>, &'input str, Option<&'input str>)>
+    (_, v, _): (usize, Vec<(usize, String, usize)>, usize),
+    (_, x, _): (usize, (usize, String, usize), usize),
+) -> Vec<(usize, String, usize)>
 {
-    __0
+    { let mut v = v; v.push(x); v }
 }
 
 #[allow(unused_variables)]
@@ -932,11 +1241,11 @@ fn __action4<
     'input,
 >(
     input: &'input str,
-    (_, __0, _): (usize, &'input str, usize),
-    (_, _, _): (usize, &'input str, usize),
-) -> &'input str
+    __lookbehind: &usize,
+    __lookahead: &usize,
+) -> Vec<(usize, String, usize)>
 {
-    __0
+    vec![]
 }
 
 #[allow(unused_variables)]
@@ -945,11 +1254,10 @@ fn __action5<
     'input,
 >(
     input: &'input str,
-    (_, __0, _): (usize, (Option<&'input str>, &'input str, Option<&'input str>), usize),
-    (_, _, _): (usize, &'input str, usize),
-) -> (Option<&'input str>, &'input str, Option<&'input str>)
+    (_, __0, _): (usize, &'input str, usize),
+) -> String
 {
-    __0
+    __0.to_string()
 }
 
 #[allow(unused_variables)]
@@ -958,12 +1266,10 @@ fn __action6<
     'input,
 >(
     input: &'input str,
-    (_, __0, _): (usize, Option<&'input str>, usize),
-    (_, __1, _): (usize, &'input str, usize),
-    (_, __2, _): (usize, Option<&'input str>, usize),
-) -> (Option<&'input str>, &'input str, Option<&'input str>)
+    (_, __0, _): (usize, (usize, usize, usize), usize),
+) -> (usize, usize, usize)
 {
-    (__0, __1, __2)
+    __0
 }
 
 #[allow(unused_variables)]
@@ -972,15 +1278,60 @@ fn __action7<
     'input,
 >(
     input: &'input str,
-    (_, __0, _): (usize, Option<&'input str>, usize),
-) -> Option<&'input str>
+    (_, __0, _): (usize, (usize, usize), usize),
+    (_, __1, _): (usize, (usize, String, usize), usize),
+) -> ((usize, usize), (usize, String, usize))
 {
-    __0
+    (__0, __1)
 }
 
 #[allow(unused_variables)]
 #[allow(clippy::too_many_arguments, clippy::needless_lifetimes, clippy::just_underscores_and_digits, clippy::extra_unused_type_parameters)]
 fn __action8<
+    'input,
+>(
+    input: &'input str,
+    (_, l, _): (usize, usize, usize),
+    (_, _, _): (usize, Option<&'input str>, usize),
+    (_, r, _): (usize, usize, usize),
+) -> (usize, usize)
+{
+    (l, r)
+}
+
+#[allow(unused_variables)]
+#[allow(clippy::too_many_arguments, clippy::needless_lifetimes, clippy::just_underscores_and_digits, clippy::extra_unused_type_parameters)]
+fn __action9<
+    'input,
+>(
+    input: &'input str,
+    (_, _, _): (usize, &'input str, usize),
+    (_, m, _): (usize, usize, usize),
+    (_, q, _): (usize, usize, usize),
+    (_, _, _): (usize, &'input str, usize),
+    (_, e, _): (usize, usize, usize),
+) -> (usize, usize, usize)
+{
+    (m, q, e)
+}
+
+#[allow(unused_variables)]
+#[allow(clippy::too_many_arguments, clippy::needless_lifetimes, clippy::just_underscores_and_digits, clippy::extra_unused_type_parameters)]
+fn __action10<
+    'input,
+>(
+    input: &'input str,
+    (_, l, _): (usize, usize, usize),
+    (_, t, _): (usize, String, usize),
+    (_, r, _): (usize, usize, usize),
+) -> (usize, String, usize)
+{
+    (l, t, r)
+}
+
+#[allow(unused_variables)]
+#[allow(clippy::too_many_arguments, clippy::needless_lifetimes, clippy::just_underscores_and_digits, clippy::extra_unused_type_parameters)]
+fn __action11<
     'input,
 >(
     input: &'input str,
@@ -992,7 +1343,7 @@ fn __action8<
 
 #[allow(unused_variables)]
 #[allow(clippy::too_many_arguments, clippy::needless_lifetimes, clippy::just_underscores_and_digits, clippy::extra_unused_type_parameters)]
-fn __action9<
+fn __action12<
     'input,
 >(
     input: &'input str,
@@ -1004,71 +1355,8 @@ fn __action9<
 }
 
 #[allow(unused_variables)]
-#[allow(clippy::too_many_arguments, clippy::needless_lifetimes, clippy::just_underscores_and_digits, clippy::extra_unused_type_parameters)]
-fn __action10<
-    'input,
->(
-    input: &'input str,
-    (_, __0, _): (usize, (Option<&'input str>, &'input str, Option<&'input str>), usize),
-) -> Option<(Option<&'input str>, &'input str, Option<&'input str>)>
-{
-    Some(__0)
-}
-
-#[allow(unused_variables)]
-#[allow(clippy::too_many_arguments, clippy::needless_lifetimes, clippy::just_underscores_and_digits, clippy::extra_unused_type_parameters)]
-fn __action11<
-    'input,
->(
-    input: &'input str,
-    __lookbehind: &usize,
-    __lookahead: &usize,
-) -> Option<(Option<&'input str>, &'input str, Option<&'input str>)>
-{
-    None
-}
-
-#[allow(unused_variables)]
 #[allow(clippy::needless_lifetimes, clippy::clone_on_copy)]
-fn __action12<
-    'input,
->(
-    input: &'input str,
-    __lookbehind: &usize,
-    __lookahead: &usize,
-) -> usize
-{
-    __lookbehind.clone()
-}
-
-#[allow(unused_variables)]
-#[allow(clippy::too_many_arguments, clippy::needless_lifetimes, clippy::just_underscores_and_digits, clippy::extra_unused_type_parameters)]
 fn __action13<
-    'input,
->(
-    input: &'input str,
-    __lookbehind: &usize,
-    __lookahead: &usize,
-) -> alloc::vec::Vec<usize>
-{
-    alloc::vec![]
-}
-
-#[allow(unused_variables)]
-#[allow(clippy::too_many_arguments, clippy::needless_lifetimes, clippy::just_underscores_and_digits, clippy::extra_unused_type_parameters)]
-fn __action14<
-    'input,
->(
-    input: &'input str,
-    (_, v, _): (usize, alloc::vec::Vec<usize>, usize),
-) -> alloc::vec::Vec<usize>
-{
-    v
-}
-
-#[allow(unused_variables)]
-#[allow(clippy::needless_lifetimes, clippy::clone_on_copy)]
-fn __action15<
     'input,
 >(
     input: &'input str,
@@ -1080,28 +1368,136 @@ fn __action15<
 }
 
 #[allow(unused_variables)]
-#[allow(clippy::too_many_arguments, clippy::needless_lifetimes, clippy::just_underscores_and_digits, clippy::extra_unused_type_parameters)]
+#[allow(clippy::too_many_arguments, clippy::needless_lifetimes,
+    clippy::just_underscores_and_digits, clippy::clone_on_copy, clippy::unit_arg)]
+fn __action14<
+    'input,
+>(
+    input: &'input str,
+    __0: (usize, usize, usize),
+    __1: (usize, &'input str, usize),
+    __2: (usize, usize, usize),
+) -> (usize, usize)
+{
+    let __start0 = __1.0.clone();
+    let __end0 = __1.2.clone();
+    let __temp0 = __action11(
+        input,
+        __1,
+    );
+    let __temp0 = (__start0, __temp0, __end0);
+    __action8(
+        input,
+        __0,
+        __temp0,
+        __2,
+    )
+}
+
+#[allow(unused_variables)]
+#[allow(clippy::too_many_arguments, clippy::needless_lifetimes,
+    clippy::just_underscores_and_digits, clippy::clone_on_copy, clippy::unit_arg)]
+fn __action15<
+    'input,
+>(
+    input: &'input str,
+    __0: (usize, usize, usize),
+    __1: (usize, usize, usize),
+) -> (usize, usize)
+{
+    let __start0 = __0.2.clone();
+    let __end0 = __1.0.clone();
+    let __temp0 = __action12(
+        input,
+        &__start0,
+        &__end0,
+    );
+    let __temp0 = (__start0, __temp0, __end0);
+    __action8(
+        input,
+        __0,
+        __temp0,
+        __1,
+    )
+}
+
+#[allow(unused_variables)]
+#[allow(clippy::too_many_arguments, clippy::needless_lifetimes,
+    clippy::just_underscores_and_digits, clippy::clone_on_copy, clippy::unit_arg)]
 fn __action16<
     'input,
 >(
     input: &'input str,
-    (_, __0, _): (usize, usize, usize),
-) -> alloc::vec::Vec<usize>
+    __0: (usize, &'input str, usize),
+    __1: (usize, &'input str, usize),
+) -> (usize, usize, usize)
 {
-    alloc::vec![__0]
+    let __start0 = __0.2.clone();
+    let __end0 = __1.0.clone();
+    let __start1 = __0.2.clone();
+    let __end1 = __1.0.clone();
+    let __start2 = __1.2.clone();
+    let __end2 = __1.2.clone();
+    let __temp0 = __action13(
+        input,
+        &__start0,
+        &__end0,
+    );
+    let __temp0 = (__start0, __temp0, __end0);
+    let __temp1 = __action13(
+        input,
+        &__start1,
+        &__end1,
+    );
+    let __temp1 = (__start1, __temp1, __end1);
+    let __temp2 = __action13(
+        input,
+        &__start2,
+        &__end2,
+    );
+    let __temp2 = (__start2, __temp2, __end2);
+    __action9(
+        input,
+        __0,
+        __temp0,
+        __temp1,
+        __1,
+        __temp2,
+    )
 }
 
 #[allow(unused_variables)]
-#[allow(clippy::too_many_arguments, clippy::needless_lifetimes, clippy::just_underscores_and_digits, clippy::extra_unused_type_parameters)]
+#[allow(clippy::too_many_arguments, clippy::needless_lifetimes,
+    clippy::just_underscores_and_digits, clippy::clone_on_copy, clippy::unit_arg)]
 fn __action17<
     'input,
 >(
     input: &'input str,
-    (_, v, _): (usize, alloc::vec::Vec<usize>, usize),
-    (_, e, _): (usize, usize, usize),
-) -> alloc::vec::Vec<usize>
+    __0: (usize, &'input str, usize),
+) -> (usize, usize)
 {
-    { let mut v = v; v.push(e); v }
+    let __start0 = __0.0.clone();
+    let __end0 = __0.0.clone();
+    let __start1 = __0.2.clone();
+    let __end1 = __0.2.clone();
+    let __temp0 = __action13(
+        input,
+        &__start0,
+        &__end0,
+    );
+    let __temp0 = (__start0, __temp0, __end0);
+    let __temp1 = __action13(
+        input,
+        &__start1,
+        &__end1,
+    );
+    let __temp1 = (__start1, __temp1, __end1);
+    __action14(
+        input,
+        __temp0,
+        __0,
+        __temp1,
+    )
 }
 
 #[allow(unused_variables)]
@@ -1111,19 +1507,30 @@ fn __action18<
     'input,
 >(
     input: &'input str,
-    __0: (usize, &'input str, usize),
-) -> Option<&'input str>
+    __lookbehind: &usize,
+    __lookahead: &usize,
+) -> (usize, usize)
 {
-    let __start0 = __0.0.clone();
-    let __end0 = __0.2.clone();
-    let __temp0 = __action8(
+    let __start0 = __lookbehind.clone();
+    let __end0 = __lookahead.clone();
+    let __start1 = __lookbehind.clone();
+    let __end1 = __lookahead.clone();
+    let __temp0 = __action13(
         input,
-        __0,
+        &__start0,
+        &__end0,
     );
     let __temp0 = (__start0, __temp0, __end0);
-    __action7(
+    let __temp1 = __action13(
+        input,
+        &__start1,
+        &__end1,
+    );
+    let __temp1 = (__start1, __temp1, __end1);
+    __action15(
         input,
         __temp0,
+        __temp1,
     )
 }
 
@@ -1134,171 +1541,30 @@ fn __action19<
     'input,
 >(
     input: &'input str,
-    __lookbehind: &usize,
-    __lookahead: &usize,
-) -> Option<&'input str>
-{
-    let __start0 = __lookbehind.clone();
-    let __end0 = __lookahead.clone();
-    let __temp0 = __action9(
-        input,
-        &__start0,
-        &__end0,
-    );
-    let __temp0 = (__start0, __temp0, __end0);
-    __action7(
-        input,
-        __temp0,
-    )
-}
-
-#[allow(unused_variables)]
-#[allow(clippy::too_many_arguments, clippy::needless_lifetimes,
-    clippy::just_underscores_and_digits, clippy::clone_on_copy, clippy::unit_arg)]
-fn __action20<
-    'input,
->(
-    input: &'input str,
-    __0: (usize, alloc::vec::Vec<usize>, usize),
-    __1: (usize, usize, usize),
-) -> Vec<usize>
+    __0: (usize, String, usize),
+) -> (usize, String, usize)
 {
     let __start0 = __0.0.clone();
     let __end0 = __0.0.clone();
-    let __temp0 = __action15(
-        input,
-        &__start0,
-        &__end0,
-    );
-    let __temp0 = (__start0, __temp0, __end0);
-    __action1(
-        input,
-        __temp0,
-        __0,
-        __1,
-    )
-}
-
-#[allow(unused_variables)]
-#[allow(clippy::too_many_arguments, clippy::needless_lifetimes,
-    clippy::just_underscores_and_digits, clippy::clone_on_copy, clippy::unit_arg)]
-fn __action21<
-    'input,
->(
-    input: &'input str,
-    __0: (usize, alloc::vec::Vec<usize>, usize),
-) -> Vec<usize>
-{
-    let __start0 = __0.2.clone();
-    let __end0 = __0.2.clone();
-    let __temp0 = __action12(
-        input,
-        &__start0,
-        &__end0,
-    );
-    let __temp0 = (__start0, __temp0, __end0);
-    __action20(
-        input,
-        __0,
-        __temp0,
-    )
-}
-
-#[allow(unused_variables)]
-#[allow(clippy::too_many_arguments, clippy::needless_lifetimes,
-    clippy::just_underscores_and_digits, clippy::clone_on_copy, clippy::unit_arg)]
-fn __action22<
-    'input,
->(
-    input: &'input str,
-    __lookbehind: &usize,
-    __lookahead: &usize,
-) -> Vec<usize>
-{
-    let __start0 = __lookbehind.clone();
-    let __end0 = __lookahead.clone();
+    let __start1 = __0.2.clone();
+    let __end1 = __0.2.clone();
     let __temp0 = __action13(
         input,
         &__start0,
         &__end0,
     );
     let __temp0 = (__start0, __temp0, __end0);
-    __action21(
+    let __temp1 = __action13(
         input,
-        __temp0,
-    )
-}
-
-#[allow(unused_variables)]
-#[allow(clippy::too_many_arguments, clippy::needless_lifetimes,
-    clippy::just_underscores_and_digits, clippy::clone_on_copy, clippy::unit_arg)]
-fn __action23<
-    'input,
->(
-    input: &'input str,
-    __0: (usize, alloc::vec::Vec<usize>, usize),
-) -> Vec<usize>
-{
-    let __start0 = __0.0.clone();
-    let __end0 = __0.2.clone();
-    let __temp0 = __action14(
-        input,
-        __0,
+        &__start1,
+        &__end1,
     );
-    let __temp0 = (__start0, __temp0, __end0);
-    __action21(
+    let __temp1 = (__start1, __temp1, __end1);
+    __action10(
         input,
         __temp0,
-    )
-}
-
-#[allow(unused_variables)]
-#[allow(clippy::too_many_arguments, clippy::needless_lifetimes,
-    clippy::just_underscores_and_digits, clippy::clone_on_copy, clippy::unit_arg)]
-fn __action24<
-    'input,
->(
-    input: &'input str,
-    __0: (usize, &'input str, usize),
-    __1: (usize, (Option<&'input str>, &'input str, Option<&'input str>), usize),
-) -> Option<(Option<&'input str>, &'input str, Option<&'input str>)>
-{
-    let __start0 = __1.0.clone();
-    let __end0 = __1.2.clone();
-    let __temp0 = __action10(
-        input,
-        __1,
-    );
-    let __temp0 = (__start0, __temp0, __end0);
-    __action3(
-        input,
         __0,
-        __temp0,
-    )
-}
-
-#[allow(unused_variables)]
-#[allow(clippy::too_many_arguments, clippy::needless_lifetimes,
-    clippy::just_underscores_and_digits, clippy::clone_on_copy, clippy::unit_arg)]
-fn __action25<
-    'input,
->(
-    input: &'input str,
-    __0: (usize, &'input str, usize),
-) -> Option<(Option<&'input str>, &'input str, Option<&'input str>)>
-{
-    let __start0 = __0.2.clone();
-    let __end0 = __0.2.clone();
-    let __temp0 = __action11(
-        input,
-        &__start0,
-        &__end0,
-    );
-    let __temp0 = (__start0, __temp0, __end0);
-    __action3(
-        input,
-        __0,
-        __temp0,
+        __temp1,
     )
 }
 
